@@ -521,6 +521,13 @@ func RunC06(tier string, args []string) int {
 				c[dPad], c[dEnc], c[dN] = pad, enc, n
 				judge(c)
 				sweep++
+				if n == 0 && (tier == "thorough" || enc != 2 || pad%3 == 0) {
+					// the same sweep with a 2048-bit RSA signature: its BIT STRING header has two length octets
+					// (03 82 01 01) that can straddle a window where the ECDSA one (03 47) cannot
+					c[dAlg] = 3
+					judge(c)
+					sweep++
+				}
 			}
 		}
 	}
